@@ -575,6 +575,7 @@ mod stackable_error_tests {
 
 #[derive(Debug, PartialEq, Eq, PartialOrd, Ord)]
 pub enum ErrorDetail {
+  BuiltinMemberAsValue { member: PStr },
   CannotResolveClass { module_reference: ModuleReference, name: PStr },
   CannotResolveMember { parent: Description, member: PStr },
   CannotResolveModule { module_reference: ModuleReference },
@@ -619,6 +620,12 @@ impl ErrorDetail {
         printable_stream.push_text("Cannot resolve module `");
         printable_stream.push_mod_ref(module_reference);
         printable_stream.push_text("`.");
+      }
+      ErrorDetail::BuiltinMemberAsValue { member } => {
+        printable_stream.push_text("Built-in member `");
+        printable_stream.push_pstr(member);
+        printable_stream
+          .push_text("` can only be called; it cannot be used as a value. Wrap it in a lambda instead.");
       }
       ErrorDetail::CannotResolveName { name } => {
         printable_stream.push_text("Cannot resolve name `");
@@ -1016,6 +1023,10 @@ impl ErrorSet {
 
   pub fn report_cannot_resolve_name_error(&mut self, loc: Location, name: PStr) {
     self.report_error(loc, ErrorDetail::CannotResolveName { name })
+  }
+
+  pub fn report_builtin_member_as_value_error(&mut self, loc: Location, member: PStr) {
+    self.report_error(loc, ErrorDetail::BuiltinMemberAsValue { member })
   }
 
   pub fn report_cyclic_type_definition_error(&mut self, type_loc: Location, type_: Description) {
